@@ -5,6 +5,8 @@ from __future__ import annotations
 from ..domains import IntSet
 from .c10 import numeric_fields, field_table, SENT
 from .common import flatten, unwrap_message
+from .c04 import infer_shape
+from ..spec import itu
 
 
 def sentinel_of(kind):
@@ -68,6 +70,15 @@ def run(ctx, chk):
                 if not p.endswith(".slot_offset"):
                     continue
                 if t == ("none",):
+                    # absent only when the offset is transmitted as 0 or is not in the payload at all
+                    shape = infer_shape(struct, flat, o)
+                    exp = itu.expected_fields(struct, shape) or {}
+                    if p in exp:
+                        off, w, _ = exp[p]
+                        g = o.guard.get(("bits", off, w))
+                        okk = (g is not None and g == IntSet.of(0)) or o.nset().max() * 8 < off + w
+                        chk.ob(okk, "C11/Interrogation/absent/%s/%s/%s" % (p.split(".")[-2][:12], g, o.nset()),
+                               "Interrogation.%s [%s]: absent at %r bytes although the 12 offset bits are present and not known to be 0 (guard %r)" % (p, cfg, o.nset(), g))
                     continue
                 if t[0] == "some" and t[1][0] == "bits":
                     g = o.guard.get(t[1])
